@@ -247,14 +247,25 @@ Proof.
   unfold read_def_str. intros H I. repeat brk H;
     injection H as <- <- <- <-; try exact I; apply lx_add_log_ok, I.
 Qed.
+Lemma read_int_args_ok ls s ln vs s' ln' ls' :
+  read_int_args ls s ln = Ok (vs, s', ln', ls') -> LI ls -> LI ls'.
+Proof.
+  unfold read_int_args. intros H I. repeat brk H; injection H as <- <- <- <-. eapply read_args_tokens_ok; eassumption.
+Qed.
+Lemma read_int_command_ok ls ty t1 s ln ot s' ln' ls' :
+  read_int_command ls ty t1 s ln = Ok (ot, s', ln', ls') -> LI ls -> LI ls'.
+Proof.
+  unfold read_int_command. intros H I. repeat brk H; injection H as <- <- <- <-; eapply read_int_args_ok; eassumption.
+Qed.
 Lemma read_ext_command_raw_ok ls ttype argt tag1 tag2 s ln ot s' ln' ls' :
   read_ext_command_raw ls ttype argt tag1 tag2 s ln = Ok (ot, s', ln', ls') -> LI ls -> LI ls'.
 Proof.
   unfold read_ext_command_raw. intros H I. repeat brk H;
     try (injection H as ->; first [eapply read_cc_ok; eassumption | eapply read_command_cc_ok; eassumption
                                   | eapply read_rpn_command_ok; eassumption | eapply read_play_ok; eassumption
-                                  | eapply read_def_str_ok; eassumption]);
-    injection H as <- <- <- <-; try exact I; eapply read_args_tokens_ok; eassumption.
+                                  | eapply read_def_str_ok; eassumption | eapply read_int_command_ok; eassumption]);
+    injection H as <- <- <- <-; try exact I;
+    first [eapply read_args_tokens_ok; eassumption | eapply read_macro_args_ok; eassumption].
 Qed.
 Lemma read_ext_command_ok ls ttype argt tag1 tag2 s ln ot s' ln' ls' :
   read_ext_command ls ttype argt tag1 tag2 s ln = Ok (ot, s', ln', ls') -> LI ls -> LI ls'.
